@@ -499,3 +499,6 @@ def run(chk, tier, only_rule=None):
     r01_9(chk, facts)
     r01_10(chk, facts)
     c03.r03_1_2(chk, facts)
+    # a parsed object equals the one it was written from only if the decoder's sort and the container's lookups order the names alike
+    from . import c09
+    c09.r09_10(chk, facts)
